@@ -71,7 +71,25 @@ def check_enum(E, declared, span, rng, report, count, where, others=()):
         try:
             # the signature is (value, names=None, *, module, qualname, type, start): the integer may also be
             # passed by keyword, and the defaults may be spelled out
-            x = E(n) if k % 7 < 5 else E(value=n) if k % 7 == 5 else E(n, names=None, module=None, qualname=None, type=None)
+            if k % 11 == 3:
+                # an error handler (or a finally / __exit__ while an exception travels) reads enums too: the
+                # construction happens while another, unrelated exception is being handled
+                count("constructions-while-handling-another-exception")
+                try:
+                    raise KeyError("unrelated")
+                except KeyError:
+                    x = E(n)
+            elif k % 11 == 7:
+                count("constructions-while-handling-another-exception")
+                try:
+                    try:
+                        raise OSError("unrelated")
+                    finally:
+                        x = E(n)
+                except OSError:
+                    pass
+            else:
+                x = E(n) if k % 7 < 5 else E(value=n) if k % 7 == 5 else E(n, names=None, module=None, qualname=None, type=None)
         except Exception as e:
             report("construction-raises", "%s(%d) raised %r" % (where, n, e), {"enum": where, "n": n})
             continue
